@@ -46,7 +46,7 @@ func main() {
 		for i := 0; i < len(ops); i++ {
 			op := ops[i]
 			out := sm.Apply(op)
-			if op[0] == 'R' && i+1 < len(ops) && ops[i+1] == "N" && !sm.Dead {
+			if (op[0] == 'R' || op[0] == 'B') && i+1 < len(ops) && ops[i+1] == "N" && !sm.Dead {
 				// the channel is only read after Notify: a unit is Parse;Notify
 				i++
 				out = sm.Apply("N")
@@ -130,6 +130,9 @@ func main() {
 		} else {
 			ops = g.ConflictHistory(6 + rng.Intn(25))
 		}
+		if i%3 != 0 {
+			ops = tables.RawOps(ops, rng, 20, func(k string) { r.Stat(k, 1) })
+		}
 		r.Do("t6", append([]string{cfg.Tok(), "0"}, ops...)...)
 		r.Stat("class.conflict", 1)
 	}
@@ -139,9 +142,15 @@ func main() {
 			n = 1 + rng.Intn(3)
 		}
 		ops := g.History(n)
+		if i%3 != 0 {
+			ops = tables.RawOps(ops, rng, 20, func(k string) { r.Stat(k, 1) })
+		}
 		r.Do("t6", append([]string{cfg.Tok(), "0"}, ops...)...)
 		stat(ops)
 		pure := g.PureHistory(n)
+		if i%3 != 0 {
+			pure = tables.RawOps(pure, rng, 15, func(k string) { r.Stat(k, 1) })
+		}
 		ips, _ := tables.Candidates(cfg, pure)
 		r.Do("t6c", append([]string{cfg.Tok(), "0", tables.IPsTok(ips)}, pure...)...)
 		stat(pure)
